@@ -122,4 +122,64 @@ float g_limit; /* ghost: the float product 10000 * model of this call */
   __CPROVER_assigns()                                                                                                  \
   __CPROVER_ensures(measured < g_limit ==> __CPROVER_return_value == g_ratio)                                       \
   __CPROVER_ensures(__CPROVER_return_value == g_ratio || __CPROVER_return_value == 0.F)
+
+/* ---- FanProjData constructor: the index ranges it builds (ghost (g_ra, g_a, g_rb)) ----
+   Postcondition = the reader contracts above: [ra] in [0,R-1]; [a] in [0,N-1]; [rb] in [ra, min(ra+D,R-1)]; [b] in [a+N/2-h, a+N/2+h],
+   each range set exactly once, every index used while building inside the range built one level up. */
+int g_ra, g_a, g_rb;
+int g_r0_lo, g_r0_hi, g_r1_lo, g_r1_hi, g_r2_lo, g_r2_hi, g_r3_lo, g_r3_hi, g_n1, g_n2, g_n3;
+#define IDX_GROW0(lo, hi) (g_r0_lo = (lo), g_r0_hi = (hi))
+#define IDX_GROW1(ra_, lo, hi)                                                                                        \
+  do                                                                                                                  \
+    {                                                                                                                 \
+      __CPROVER_assert((ra_) >= g_r0_lo && (ra_) <= g_r0_hi, "fan_indices[ra] inside the outer range");               \
+      if ((ra_) == g_ra) { g_r1_lo = (lo); g_r1_hi = (hi); ++g_n1; }                                                   \
+    }                                                                                                                 \
+  while (0)
+#define IDX_GROW2(ra_, a_, lo, hi)                                                                                    \
+  do                                                                                                                  \
+    {                                                                                                                 \
+      __CPROVER_assert((a_) >= 0 && (a_) <= num_detectors_per_ring - 1, "fan_indices[ra][a] inside the range of a");  \
+      if ((ra_) == g_ra && (a_) == g_a) { g_r2_lo = (lo); g_r2_hi = (hi); ++g_n2; }                                    \
+    }                                                                                                                 \
+  while (0)
+#define IDX_SET3(ra_, a_, rb_, lo, hi)                                                                                \
+  do                                                                                                                  \
+    {                                                                                                                 \
+      __CPROVER_assert((rb_) >= K_max_int(ra_, K_max_int((ra_) - max_ring_diff, 0)) && (rb_) <= K_min_int((ra_) + max_ring_diff, num_rings - 1), "fan_indices[ra][a][rb] inside the range of rb"); \
+      if ((ra_) == g_ra && (a_) == g_a && (rb_) == g_rb) { g_r3_lo = (lo); g_r3_hi = (hi); ++g_n3; }                  \
+    }                                                                                                                 \
+  while (0)
+#define CTOR_ARGS_OK (FAN_N_OK(num_detectors_per_ring) && num_detectors_per_ring >= 2 && num_detectors_per_ring % 2 == 0 && num_rings >= 1 && num_rings <= 4096 \
+                      && max_ring_diff >= 0 && max_ring_diff < num_rings && fan_size >= 0 && fan_size < num_detectors_per_ring)
+#define G_IN (g_ra >= 0 && g_ra < num_rings && g_a >= 0 && g_a < num_detectors_per_ring)
+#define G_RB_IN (g_rb >= g_ra && g_rb <= (g_ra + max_ring_diff < num_rings - 1 ? g_ra + max_ring_diff : num_rings - 1))
+#define CONTRACT_K_fan_ctor                                                                                           \
+  __CPROVER_requires(__CPROVER_is_fresh(self, sizeof(*self)) && CTOR_ARGS_OK && g_n1 == 0 && g_n2 == 0 && g_n3 == 0)  \
+  __CPROVER_assigns(*self, g_r0_lo, g_r0_hi, g_r1_lo, g_r1_hi, g_r2_lo, g_r2_hi, g_r3_lo, g_r3_hi, g_n1, g_n2, g_n3)   \
+  __CPROVER_ensures(self->num_rings == num_rings && self->num_detectors_per_ring == num_detectors_per_ring && self->max_ring_diff == max_ring_diff && self->half_fan_size == fan_size / 2) \
+  __CPROVER_ensures(g_r0_lo == 0 && g_r0_hi == num_rings - 1)                                                          \
+  __CPROVER_ensures(G_IN ? (g_n1 == 1 && g_r1_lo == 0 && g_r1_hi == num_detectors_per_ring - 1 && g_n2 == 1 && g_r2_lo == g_ra && g_r2_hi == RBMAX(self, g_ra)) : (g_n2 == 0)) \
+  __CPROVER_ensures((G_IN && G_RB_IN) ? (g_n3 == 1 && g_r3_lo == MINB(self, g_a) && g_r3_hi == MAXB(self, g_a)) : g_n3 == 0)
+#define CT_DONE_RA(ra_) (g_ra >= 0 && g_ra < (ra_) && g_a >= 0 && g_a < num_detectors_per_ring)
+#define LC_K_fan_ctor_0                                                                                               \
+  __CPROVER_assigns(ra, g_r1_lo, g_r1_hi, g_r2_lo, g_r2_hi, g_r3_lo, g_r3_hi, g_n1, g_n2, g_n3)                        \
+  __CPROVER_loop_invariant(ra >= 0 && ra <= num_rings)                                                                 \
+  __CPROVER_loop_invariant(g_n1 == ((g_ra >= 0 && g_ra < ra) ? 1 : 0) && (g_n1 == 1 ==> (g_r1_lo == 0 && g_r1_hi == num_detectors_per_ring - 1))) \
+  __CPROVER_loop_invariant(g_n2 == (CT_DONE_RA(ra) ? 1 : 0) && (g_n2 == 1 ==> (g_r2_lo == g_ra && g_r2_hi == (g_ra + max_ring_diff < num_rings - 1 ? g_ra + max_ring_diff : num_rings - 1)))) \
+  __CPROVER_loop_invariant(g_n3 == ((CT_DONE_RA(ra) && G_RB_IN) ? 1 : 0) && (g_n3 == 1 ==> (g_r3_lo == g_a + num_detectors_per_ring / 2 - self->half_fan_size && g_r3_hi == g_a + num_detectors_per_ring / 2 + self->half_fan_size))) \
+  __CPROVER_decreases(num_rings - ra)
+#define CT_DONE_A(ra_, a_) ((g_ra >= 0 && g_ra < (ra_) && g_a >= 0 && g_a < num_detectors_per_ring) || (g_ra == (ra_) && g_a >= 0 && g_a < (a_)))
+#define LC_K_fan_ctor_1                                                                                               \
+  __CPROVER_assigns(a, g_r2_lo, g_r2_hi, g_r3_lo, g_r3_hi, g_n2, g_n3)                                                 \
+  __CPROVER_loop_invariant(a >= 0 && a <= num_detectors_per_ring)                                                      \
+  __CPROVER_loop_invariant(g_n2 == (CT_DONE_A(ra, a) ? 1 : 0) && (g_n2 == 1 ==> (g_r2_lo == g_ra && g_r2_hi == (g_ra + max_ring_diff < num_rings - 1 ? g_ra + max_ring_diff : num_rings - 1)))) \
+  __CPROVER_loop_invariant(g_n3 == ((CT_DONE_A(ra, a) && G_RB_IN) ? 1 : 0) && (g_n3 == 1 ==> (g_r3_lo == g_a + num_detectors_per_ring / 2 - self->half_fan_size && g_r3_hi == g_a + num_detectors_per_ring / 2 + self->half_fan_size))) \
+  __CPROVER_decreases(num_detectors_per_ring - a)
+#define LC_K_fan_ctor_2                                                                                               \
+  __CPROVER_assigns(rb, g_r3_lo, g_r3_hi, g_n3)                                                                        \
+  __CPROVER_loop_invariant(rb >= ra && rb <= max_rb + 1)                                                               \
+  __CPROVER_loop_invariant(g_n3 == (((CT_DONE_A(ra, a) && G_RB_IN) || (g_ra == ra && g_a == a && g_rb >= ra && g_rb < rb)) ? 1 : 0) \
+                           && (g_n3 == 1 ==> (g_r3_lo == g_a + num_detectors_per_ring / 2 - self->half_fan_size && g_r3_hi == g_a + num_detectors_per_ring / 2 + self->half_fan_size))) \
+  __CPROVER_decreases(max_rb + 1 - rb)
 #endif
